@@ -165,32 +165,95 @@ Proof.
     rewrite <- spec_to_sgr_parts; rewrite sgr_roundtrip; auto using default_spec_ok.
 Qed.
 
+Ltac splits := repeat match goal with |- _ /\ _ => split end.
 (* ================= 3. printing a text ================= *)
-Definition text_cells (cs : Z) (v : vattr) (text : list chr) : list cell :=
-  flat_map (fun ch : chr => char_cells (fst ch) (snd ch) cs v) text.
+Definition text_cells (cs : Z) (v : vattr) (text : list chr) : list cell := paint_text [] cs v text.
 
-Lemma text_cells_app cs v a b : text_cells cs v (a ++ b) = text_cells cs v a ++ text_cells cs v b.
-Proof. unfold text_cells. apply flat_map_app. Qed.
-
-Definition w12 (ch : chr) : Prop := snd ch = 1 \/ snd ch = 2.
+Definition w12 (ch : chr) : Prop := snd ch = 0 \/ snd ch = 1 \/ snd ch = 2.
 
 Lemma calc_width_nonneg text : Forall w12 text -> 0 <= calc_width text.
-Proof. induction 1 as [|ch l H _ IH]; cbn [calc_width]; [lia|]. destruct H; lia. Qed.
+Proof. induction 1 as [|ch l H _ IH]; cbn [calc_width]; [lia|]. destruct H as [H|[H|H]]; lia. Qed.
 
 Lemma calc_width_app a b : calc_width (a ++ b) = calc_width a + calc_width b.
 Proof. induction a; cbn [calc_width app]; lia. Qed.
 
-Lemma zlen_text_cells cs v text : Forall w12 text -> zlen (text_cells cs v text) = calc_width text.
+Lemma paint_text_cons P cs v ch text : paint_text P cs v (ch :: text) = paint_text (paint_chr cs v P ch) cs v text.
+Proof. reflexivity. Qed.
+
+Lemma paint_text_app P cs v a b : paint_text P cs v (a ++ b) = paint_text (paint_text P cs v a) cs v b.
+Proof. unfold paint_text. apply fold_left_app. Qed.
+
+Lemma paint_chr_ok cs v P ch : WFc P -> w12 ch ->
+  WFc (paint_chr cs v P ch) /\ zlen (paint_chr cs v P ch) = zlen P + snd ch.
 Proof.
-  induction 1 as [|ch l H _ IH]; [reflexivity|].
-  cbn [text_cells flat_map calc_width]. rewrite zlen_app. fold (text_cells cs v l). rewrite IH.
-  rewrite zlen_char_cells by (destruct H; lia). reflexivity.
+  intros HP Hw. unfold paint_chr. destruct (snd ch =? 0) eqn:E.
+  - destruct (zlen_combine_last P (fst ch) HP) as [Hz Hwf]. split; [exact Hwf|]. rewrite Hz. lia.
+  - split.
+    + apply WFc_app; [exact HP|]. apply WFc_char_cells. destruct Hw as [H|[H|H]]; lia.
+    + rewrite zlen_app, zlen_char_cells by (destruct Hw as [H|[H|H]]; lia). reflexivity.
 Qed.
 
-Lemma WFc_text_cells cs v text : Forall w12 text -> WFc (text_cells cs v text).
+Lemma paint_text_ok cs v text : forall P, WFc P -> Forall w12 text ->
+  WFc (paint_text P cs v text) /\ zlen (paint_text P cs v text) = zlen P + calc_width text.
 Proof.
-  induction 1 as [|ch l H _ IH]; [constructor|].
-  cbn [text_cells flat_map]. apply WFc_app; [|exact IH]. apply WFc_char_cells. destruct H; lia.
+  induction text as [|ch text IH]; intros P HP Hw.
+  - cbn. split; [exact HP|lia].
+  - inversion Hw as [|? ? Hch Hw']; subst. rewrite paint_text_cons.
+    destruct (paint_chr_ok cs v P ch HP Hch) as [H1 H2].
+    destruct (IH _ H1 Hw') as [H3 H4]. split; [exact H3|]. rewrite H4, H2. cbn [calc_width]. lia.
+Qed.
+
+Lemma zlen_text_cells cs v text : Forall w12 text -> zlen (text_cells cs v text) = calc_width text.
+Proof. intros H. destruct (paint_text_ok cs v text [] WFc_nil H) as [_ E]. unfold text_cells. rewrite E. reflexivity. Qed.
+
+Lemma WFc_text_cells cs v text : Forall w12 text -> WFc (text_cells cs v text).
+Proof. intros H. apply (paint_text_ok cs v text [] WFc_nil H). Qed.
+
+(* a combining character only touches what was painted last *)
+Lemma combine_last_prefix P Q cp : WFc Q -> Q <> [] -> combine_last (P ++ Q) cp = P ++ combine_last Q cp.
+Proof.
+  intros HQ Hne. destruct (WFc_last_cases Q HQ) as [->|[(Q' & c & -> & A & B & C)|(Q' & c & d & -> & A & B & C)]].
+  - congruence.
+  - rewrite app_assoc. rewrite !combine_last_narrow by assumption. now rewrite app_assoc.
+  - rewrite app_assoc. rewrite !combine_last_wide by assumption. now rewrite app_assoc.
+Qed.
+
+Lemma paint_text_prefix cs v text : forall P Q, WFc Q -> Q <> [] -> Forall w12 text ->
+  paint_text (P ++ Q) cs v text = P ++ paint_text Q cs v text.
+Proof.
+  induction text as [|ch text IH]; intros P Q HQ Hne Hw; [reflexivity|].
+  inversion Hw as [|? ? Hch Hw']; subst. rewrite !paint_text_cons.
+  destruct (paint_chr_ok cs v Q ch HQ Hch) as [H1 H2].
+  assert (Hne' : paint_chr cs v Q ch <> []).
+  { intros E. rewrite E in H2. change (zlen (@nil cell)) with 0 in H2.
+    assert (Hq : 0 < zlen Q) by (destruct Q; [congruence|rewrite zlen_cons; pose proof (zlen_nonneg Q); lia]).
+    destruct Hch as [Hh|[Hh|Hh]]; lia. }
+  assert (E : paint_chr cs v (P ++ Q) ch = P ++ paint_chr cs v Q ch).
+  { unfold paint_chr. destruct (snd ch =? 0); [apply combine_last_prefix; assumption|now rewrite app_assoc]. }
+  rewrite E. apply IH; assumption.
+Qed.
+
+(* a text that starts with a character taking a column does not touch what was painted before it *)
+Lemma paint_text_base cs v text P : Forall w12 text -> starts_with_base text ->
+  paint_text P cs v text = P ++ text_cells cs v text.
+Proof.
+  intros Hw Hb. unfold text_cells. destruct text as [|ch text]; [cbn; now rewrite app_nil_r|].
+  inversion Hw as [|? ? Hch Hw']; subst. cbn [starts_with_base] in Hb. rewrite !paint_text_cons.
+  unfold paint_chr. destruct (snd ch =? 0) eqn:E; [lia|]. cbn [app].
+  assert (Hc : WFc (char_cells (fst ch) (snd ch) cs v)) by (apply WFc_char_cells; destruct Hch as [H|[H|H]]; lia).
+  assert (Hn : char_cells (fst ch) (snd ch) cs v <> []) by (unfold char_cells; rewrite E; discriminate).
+  rewrite <- (app_nil_r (P ++ char_cells (fst ch) (snd ch) cs v)) at 1.
+  rewrite <- app_assoc. rewrite (paint_text_prefix cs v text P _ ) ; auto.
+  - cbn [app]. rewrite app_nil_r. reflexivity.
+  - rewrite app_nil_r. exact Hc.
+  - rewrite app_nil_r. exact Hn.
+Qed.
+
+Lemma text_cells_app cs v a b : Forall w12 a -> Forall w12 b -> starts_with_base b ->
+  text_cells cs v (a ++ b) = text_cells cs v a ++ text_cells cs v b.
+Proof.
+  intros Ha Hb Hs. unfold text_cells at 1. rewrite paint_text_app. fold (text_cells cs v a).
+  apply paint_text_base; assumption.
 Qed.
 
 Lemma SameFrame_g1 t0 t t' y : SameFrame t0 t y -> SameFrame t0 t' y -> t_g1 t' = t_g1 t.
@@ -199,40 +262,68 @@ Proof. unfold SameFrame. intuition congruence. Qed.
 Lemma SameFrame_len t0 t y : SameFrame t0 t y -> zlen (t_grid t) = zlen (t_grid t0).
 Proof. unfold SameFrame. intuition. Qed.
 
-Lemma print_ok text : forall t0 t y P R,
-  RowSt t y P R -> SameFrame t0 t y -> 0 <= y < zlen (t_grid t0) -> t_irm t = false ->
+(* printing any text (characters of width 0, 1, 2) that fits on the line; insert mode only matters for
+   characters that take a column *)
+Lemma print_any text : forall t0 t y P R,
+  RowSt t y P R -> SameFrame t0 t y -> 0 <= y < zlen (t_grid t0) ->
+  (t_irm t = false \/ Forall (fun ch : chr => snd ch = 0) text) ->
   Forall w12 text -> zlen P + calc_width text <= t_cols t ->
-  exists R', RowSt (run t (map ch_tok text)) y (P ++ text_cells (cur_cs t) (t_attr t) text) R'
-          /\ SameFrame t0 (run t (map ch_tok text)) y /\ SameModes t (run t (map ch_tok text)).
+  exists R', RowSt (run t (map ch_tok text)) y (paint_text P (cur_cs t) (t_attr t) text) R'
+          /\ SameFrame t0 (run t (map ch_tok text)) y /\ SameModes t (run t (map ch_tok text))
+          /\ (Forall (fun ch : chr => snd ch = 0) text -> R' = R).
 Proof.
   induction text as [|ch text IH]; intros t0 t y P R HR HF Hy Hirm Hw Hfit.
-  - exists R. cbn [map run fold_left text_cells flat_map]. rewrite app_nil_r. auto using SameModes_refl.
+  - exists R. cbn [map run fold_left paint_text]. auto using SameModes_refl.
   - inversion Hw as [|? ? Hch Hw']; subst. cbn [calc_width] in Hfit.
     pose proof (calc_width_nonneg text Hw') as Hnn.
-    cbn [map]. rewrite run_cons. unfold ch_tok at 1. cbn [step].
-    destruct (put_ok t0 t y P R (fst ch) (snd ch) HR HF) as (HR1 & HF1 & HM1); auto.
-    { rewrite (SameFrame_len _ _ _ HF). exact Hy. }
-    { lia. }
+    cbn [map]. rewrite run_cons. unfold ch_tok at 1. cbn [step]. rewrite paint_text_cons.
+    assert (Hyt : 0 <= y < zlen (t_grid t)) by (rewrite (SameFrame_len _ _ _ HF); exact Hy).
+    assert (H1 : exists R1, RowSt (put t (fst ch) (snd ch)) y (paint_chr (cur_cs t) (t_attr t) P ch) R1
+                   /\ SameFrame t0 (put t (fst ch) (snd ch)) y /\ SameModes t (put t (fst ch) (snd ch))
+                   /\ (snd ch = 0 -> R1 = R)).
+    { unfold paint_chr. destruct (snd ch =? 0) eqn:E0.
+      - assert (E : snd ch = 0) by lia. rewrite E.
+        destruct (put_zero_ok t0 t y P R (fst ch) HR HF Hyt) as (A & B & C). exists R. auto.
+      - assert (Hirm' : t_irm t = false).
+        { destruct Hirm as [H|H]; [exact H|]. apply Forall_inv in H. lia. }
+        destruct (put_ok t0 t y P R (fst ch) (snd ch) HR HF Hyt Hirm') as (A & B & C).
+        { destruct Hch as [H|[H|H]]; lia. }
+        { lia. }
+        eexists. splits; eauto. intros H. lia. }
+    destruct H1 as (R1 & HR1 & HF1 & HM1 & HR1eq).
     set (t1 := put t (fst ch) (snd ch)) in *.
-    assert (Hirm1 : t_irm t1 = false) by (destruct HM1 as (_ & -> & _); exact Hirm).
+    assert (Hirm1 : t_irm t1 = false \/ Forall (fun ch : chr => snd ch = 0) text).
+    { destruct Hirm as [H|H]; [left; destruct HM1 as (_ & -> & _); exact H|right; eapply Forall_inv_tail; eauto]. }
     assert (Hcols : t_cols t1 = t_cols t).
     { destruct HF as (-> & _). destruct HF1 as (-> & _). reflexivity. }
-    destruct (IH t0 t1 y _ _ HR1 HF1 Hy Hirm1 Hw') as (R' & HR2 & HF2 & HM2).
-    { rewrite zlen_app, zlen_char_cells by (destruct Hch; lia). lia. }
-    exists R'. split; [|split].
-    + cbn [text_cells flat_map]. rewrite app_assoc.
-      assert (Ecs : cur_cs t1 = cur_cs t) by (apply cur_cs_modes; [exact HM1|eapply SameFrame_g1; eauto]).
+    assert (Hz : zlen (paint_chr (cur_cs t) (t_attr t) P ch) = zlen P + snd ch).
+    { apply paint_chr_ok; [apply HR|exact Hch]. }
+    destruct (IH t0 t1 y _ _ HR1 HF1 Hy Hirm1 Hw') as (R' & HR2 & HF2 & HM2 & HR2eq).
+    { rewrite Hz. lia. }
+    exists R'. splits.
+    + assert (Ecs : cur_cs t1 = cur_cs t) by (apply cur_cs_modes; [exact HM1|eapply SameFrame_g1; eauto]).
       assert (Eat : t_attr t1 = t_attr t) by (destruct HM1 as (-> & _); reflexivity).
       rewrite Ecs, Eat in HR2. exact HR2.
     + exact HF2.
     + eapply SameModes_trans; eauto.
+    + intros Hall. rewrite HR2eq by (eapply Forall_inv_tail; eauto). apply HR1eq. apply Forall_inv in Hall. exact Hall.
+Qed.
+
+Lemma print_ok text : forall t0 t y P R,
+  RowSt t y P R -> SameFrame t0 t y -> 0 <= y < zlen (t_grid t0) -> t_irm t = false ->
+  Forall w12 text -> starts_with_base text -> zlen P + calc_width text <= t_cols t ->
+  exists R', RowSt (run t (map ch_tok text)) y (P ++ text_cells (cur_cs t) (t_attr t) text) R'
+          /\ SameFrame t0 (run t (map ch_tok text)) y /\ SameModes t (run t (map ch_tok text)).
+Proof.
+  intros t0 t y P R HR HF Hy Hirm Hw Hb Hfit.
+  destruct (print_any text t0 t y P R HR HF Hy (or_introl Hirm) Hw Hfit) as (R' & A & B & C & _).
+  exists R'. rewrite paint_text_base in A by assumption. auto.
 Qed.
 
 (* ================= 4. the runs of a row ================= *)
-Ltac splits := repeat match goal with |- _ /\ _ => split end.
 Definition run_ok' (c : cfg) (r : crun) : Prop :=
   let '(a, cs, text) := r in
-  Forall (chr_ok (g_utf8 c)) text /\ (if g_utf8 c then cs = 0 else cs = 0 \/ cs = 1 \/ cs = 2).
+  Forall (chr_ok (g_utf8 c)) text /\ starts_with_base text /\ (if g_utf8 c then cs = 0 else cs = 0 \/ cs = 1 \/ cs = 2).
 
 (* the terminal's charset selection agrees with first / last_charset_flag *)
 Definition CsInv (c : cfg) (first : bool) (lcs : Z) (t : term) : Prop :=
@@ -339,7 +430,7 @@ Lemma emit_run_ok c rs r t0 t y P R :
           /\ r_first (snd (emit_run c rs r)) = false.
 Proof.
   intros Hc Hok HI HR HF Hy Hfit. destruct r as [[a cs] text]. cbn [snd] in Hfit.
-  destruct Hok as [Htext Hcs]. destruct HI as (Iattr & Iirm & Ics).
+  destruct Hok as (Htext & Hbase & Hcs). destruct HI as (Iattr & Iirm & Ics).
   unfold emit_run.
   assert (Etext : (if cs =? 2 then text else map trans_chr text) = text).
   { destruct (cs =? 2); [reflexivity|]. apply (trans_id _ _ Htext). }
@@ -377,6 +468,7 @@ Proof.
   assert (Hcols2 : t_cols t2 = t_cols t) by (rewrite (SameFrame_cols _ _ _ HF2), (SameFrame_cols _ _ _ HF); reflexivity).
   destruct (print_ok text t0 t2 y P R HR2 HF2 Hy Hir2) as (R' & HR3 & HF3 & HM3).
   { eapply Forall_chr_ok_w12; eauto. }
+  { exact Hbase. }
   { rewrite Hcols2. exact Hfit. }
   exists R'. rewrite Hcs2', Hat2 in HR3. split; [exact HR3|]. split; [exact HF3|]. split; [|reflexivity].
   destruct HM3 as (M1 & M2 & M3 & M4).
@@ -442,10 +534,15 @@ Proof.
   - exact IH.
 Qed.
 
-Lemma text_pos_utf8_last t0 : forall c i sc, Forall (fun ch : chr => 0 <= snd ch) t0 -> 1 <= snd c ->
-  text_pos_utf8 (t0 ++ [c]) (sc + calc_width t0 + snd c - 1) i sc = (i + zlen t0, sc + calc_width t0).
+Definition zw (ch : chr) : Prop := snd ch = 0.
+
+Lemma calc_width_zw zs : Forall zw zs -> calc_width zs = 0.
+Proof. induction 1 as [|ch l H _ IH]; cbn [calc_width]; [reflexivity|]. unfold zw in H. lia. Qed.
+
+Lemma text_pos_utf8_last t0 : forall c zs i sc, Forall (fun ch : chr => 0 <= snd ch) t0 -> 1 <= snd c ->
+  text_pos_utf8 (t0 ++ c :: zs) (sc + calc_width t0 + snd c - 1) i sc = (i + zlen t0, sc + calc_width t0).
 Proof.
-  induction t0 as [|ch t0 IH]; intros c i sc Hw Hc.
+  induction t0 as [|ch t0 IH]; intros c zs i sc Hw Hc.
   - cbn [app text_pos_utf8 calc_width]. destruct (sc + 0 + snd c - 1 <? snd c + sc) eqn:E; [|lia].
     rewrite zlen_nil. f_equal; lia.
   - inversion Hw as [|? ? Hch Hw']; subst. cbn [app text_pos_utf8 calc_width].
@@ -466,27 +563,49 @@ Proof.
   rewrite (chr_ok_narrow_w ch H). lia.
 Qed.
 
-Lemma calc_text_pos_last u t0 c : Forall (chr_ok u) (t0 ++ [c]) ->
-  calc_text_pos u (t0 ++ [c]) (text_width u (t0 ++ [c]) - 1) = (zlen t0, text_width u t0).
+Lemma zw_narrow_nil zs : Forall (chr_ok false) zs -> Forall zw zs -> zs = [].
 Proof.
-  intros H. apply Forall_app in H as [H0 Hc]. inversion Hc as [|? ? Hc' _]; subst.
+  destruct zs as [|z zs]; [reflexivity|]. intros H1 H2. apply Forall_inv in H1. apply Forall_inv in H2.
+  apply chr_ok_narrow_w in H1. unfold zw in H2. lia.
+Qed.
+
+(* the last character that takes a column: where calc_text_pos(text, 0, len, cols - 1) lands *)
+Lemma calc_text_pos_last u t0 c zs : Forall (chr_ok u) (t0 ++ c :: zs) -> snd c <> 0 -> Forall zw zs ->
+  calc_text_pos u (t0 ++ c :: zs) (text_width u (t0 ++ c :: zs) - 1) = (zlen t0, text_width u t0).
+Proof.
+  intros H Hc0 Hzs. apply Forall_app in H as [H0 Hc]. pose proof (Forall_inv Hc) as Hc'. apply Forall_inv_tail in Hc.
   unfold calc_text_pos, text_width. destruct u.
-  - rewrite calc_width_app. cbn [calc_width].
+  - rewrite calc_width_app. cbn [calc_width]. rewrite (calc_width_zw zs Hzs).
     replace (calc_width t0 + (snd c + 0) - 1) with (0 + calc_width t0 + snd c - 1) by lia.
     rewrite text_pos_utf8_last.
     + f_equal; lia.
-    + eapply Forall_impl; [|exact H0]. intros ch (_ & [Hh|[_ Hh]] & _); lia.
-    + destruct Hc' as (_ & [Hh|[_ Hh]] & _); lia.
-  - unfold text_pos_narrow. rewrite zlen_app, zlen_cons, zlen_nil. pose proof (zlen_nonneg t0).
+    + eapply Forall_impl; [|exact H0]. intros ch (_ & [Hh|[_ [Hh|Hh]]] & _); lia.
+    + destruct Hc' as (_ & [Hh|[_ [Hh|Hh]]] & _); lia.
+  - rewrite (zw_narrow_nil zs Hc Hzs).
+    unfold text_pos_narrow. rewrite zlen_app, zlen_cons, zlen_nil. pose proof (zlen_nonneg t0).
     destruct (zlen t0 + (1 + 0) <=? zlen t0 + (1 + 0) - 1) eqn:E; [lia|]. f_equal; lia.
 Qed.
 
-Lemma run_ok_weak c r : run_ok c r -> run_ok' c r.
-Proof. destruct r as [[a cs] text]. intros (_ & H1 & H2). split; assumption. Qed.
+(* a text that starts with a column-taking character ends with one followed by combining characters only *)
+Lemma split_last_base text : text <> [] -> starts_with_base text ->
+  exists t0 c zs, text = t0 ++ c :: zs /\ snd c <> 0 /\ Forall zw zs /\ starts_with_base t0.
+Proof.
+  induction text as [|x l IH] using rev_ind; [congruence|]. intros _ Hb.
+  destruct (Z.eq_dec (snd x) 0) as [Hz|Hnz].
+  - destruct l as [|a l'].
+    + cbn in Hb. congruence.
+    + destruct IH as (t0 & c & zs & E & Hc & Hzs & Hb0); [discriminate|exact Hb|].
+      exists t0, c, (zs ++ [x]). rewrite E. rewrite <- app_assoc. cbn [app]. splits; auto.
+      apply Forall_app. split; [exact Hzs|]. constructor; [exact Hz|constructor].
+  - exists l, x, []. splits; auto. destruct l; [exact I|exact Hb].
+Qed.
 
-Lemma run_cells_split c a cs t1 t2 :
+Lemma run_ok_weak c r : run_ok c r -> run_ok' c r.
+Proof. destruct r as [[a cs] text]. intros (_ & H0 & H1 & H2). unfold run_ok'. splits; assumption. Qed.
+
+Lemma run_cells_split c a cs t1 t2 : Forall w12 t1 -> Forall w12 t2 -> starts_with_base t2 ->
   run_cells c (a, cs, t1 ++ t2) = run_cells c (a, cs, t1) ++ run_cells c (a, cs, t2).
-Proof. cbn [run_cells]. apply flat_map_app. Qed.
+Proof. intros. cbn [run_cells]. apply (text_cells_app cs (attr_vis c a) t1 t2); assumption. Qed.
 
 Lemma row_cells_single c r : row_cells c [r] = run_cells c r.
 Proof. cbn [row_cells flat_map]. apply app_nil_r. Qed.
@@ -494,93 +613,112 @@ Proof. cbn [row_cells flat_map]. apply app_nil_r. Qed.
 Lemma row_width_single r : row_width [r] = calc_width (snd r).
 Proof. rewrite row_width_cons. change (row_width []) with 0. lia. Qed.
 
+Lemma run_cells_nil c a cs : run_cells c (a, cs, []) = [].
+Proof. reflexivity. Qed.
+
+(* Y and Z: each a column-taking character with the combining characters that follow it *)
+Definition base_text (t : list chr) : Prop := exists ch zs, t = ch :: zs /\ snd ch <> 0 /\ Forall zw zs.
+
+Lemma base_text_width t : base_text t -> exists ch zs, t = ch :: zs /\ snd ch <> 0 /\ Forall zw zs /\ calc_width t = snd ch.
+Proof. intros (ch & zs & -> & H1 & H2). exists ch, zs. splits; auto. cbn [calc_width]. rewrite (calc_width_zw zs H2). lia. Qed.
+
 Lemma last_row_ok c cols row :
   row_ok c cols row -> row <> [] ->
-  (exists za zcs zc, row = [(za, zcs, [zc])] /\ last_row (g_utf8 c) row = Ok (row, 0, None))
-  \/ (exists nr0 ya ycs yc za zcs zc,
-        last_row (g_utf8 c) row = Ok (nr0 ++ [(za, zcs, [zc])], snd zc, Some (ya, ycs, [yc]))
-        /\ row_cells c row = row_cells c nr0 ++ run_cells c (ya, ycs, [yc]) ++ run_cells c (za, zcs, [zc])
-        /\ Forall (run_ok' c) (nr0 ++ [(za, zcs, [zc])]) /\ run_ok' c (ya, ycs, [yc])
-        /\ row_width nr0 + snd yc + snd zc = cols).
+  (exists r, row = [r] /\ last_row (g_utf8 c) row = Ok (row, 0, None))
+  \/ (exists nr0 ya ycs yt za zcs zt,
+        last_row (g_utf8 c) row = Ok (nr0 ++ [(za, zcs, zt)], calc_width zt, Some (ya, ycs, yt))
+        /\ row_cells c row = row_cells c nr0 ++ run_cells c (ya, ycs, yt) ++ run_cells c (za, zcs, zt)
+        /\ Forall (run_ok' c) (nr0 ++ [(za, zcs, zt)]) /\ run_ok' c (ya, ycs, yt)
+        /\ base_text yt /\ base_text zt
+        /\ row_width nr0 + calc_width yt + calc_width zt = cols).
 Proof.
   intros [Hruns Hwidth] Hne.
   destruct (snoc_cases row) as [->|(front & [[za zcs] lt] & ->)]; [congruence|].
   apply Forall_app in Hruns as [Hfront Hlast]. apply Forall_inv in Hlast as Hz.
-  destruct Hz as (Hltne & Hlt & Hzcs).
-  destruct (snoc_cases lt) as [->|(lt0 & zc & ->)]; [congruence|].
+  destruct Hz as (Hltne & Hltb & Hlt & Hzcs).
+  destruct (split_last_base lt Hltne Hltb) as (lt0 & zc & zs & -> & Hzc0 & Hzs & Hlt0b).
   unfold last_row. rewrite last_opt_snoc, removelast_last.
-  rewrite (calc_text_pos_last _ lt0 zc Hlt).
+  rewrite (calc_text_pos_last _ lt0 zc zs Hlt Hzc0 Hzs).
   pose proof (zlen_nonneg lt0) as Hl0.
-  assert (Hzc : chr_ok (g_utf8 c) zc) by (apply Forall_app in Hlt as [_ H]; apply Forall_inv in H; exact H).
   assert (Hlt0 : Forall (chr_ok (g_utf8 c)) lt0) by (apply Forall_app in Hlt as [H _]; exact H).
-  assert (Hwz : text_width (g_utf8 c) [zc] = snd zc).
-  { rewrite text_width_calc by (constructor; [exact Hzc|constructor]). cbn [calc_width]. lia. }
+  assert (Hzt : Forall (chr_ok (g_utf8 c)) (zc :: zs)) by (apply Forall_app in Hlt as [_ H]; exact H).
+  assert (Hbz : base_text (zc :: zs)) by (exists zc, zs; auto).
+  assert (Hwz : text_width (g_utf8 c) (zc :: zs) = calc_width (zc :: zs)) by (apply text_width_calc; exact Hzt).
+  assert (Hzrun : run_ok' c (za, zcs, zc :: zs)) by (unfold run_ok'; splits; auto).
   rewrite row_width_app, row_width_single in Hwidth. cbn [snd] in Hwidth. rewrite calc_width_app in Hwidth.
-  cbn [calc_width] in Hwidth.
   destruct (zlen lt0 =? 0) eqn:E0.
   - (* Z starts its run *)
-    assert (lt0 = []) by (apply zlen_zero_nil; lia). subst lt0. cbn [app] in *.
+    assert (lt0 = []) by (apply zlen_zero_nil; lia). subst lt0. cbn [app] in *. change (calc_width []) with 0 in Hwidth.
     destruct (snoc_cases front) as [->|(front0 & [[ya ycs] nt] & ->)].
-    + left. exists za, zcs, zc. split; reflexivity.
+    + left. eexists. split; reflexivity.
     + right. rewrite last_opt_snoc, removelast_last.
       apply Forall_app in Hfront as [Hfront0 Hy]. apply Forall_inv in Hy as Hyr.
-      destruct Hyr as (Hntne & Hnt & Hycs).
-      destruct (snoc_cases nt) as [->|(nt0 & yc & ->)]; [congruence|].
-      rewrite (calc_text_pos_last _ nt0 yc Hnt).
-      assert (Hyc : chr_ok (g_utf8 c) yc) by (apply Forall_app in Hnt as [_ H]; apply Forall_inv in H; exact H).
+      destruct Hyr as (Hntne & Hntb & Hnt & Hycs).
+      destruct (split_last_base nt Hntne Hntb) as (nt0 & yc & ys & -> & Hyc0 & Hys & Hnt0b).
+      rewrite (calc_text_pos_last _ nt0 yc ys Hnt Hyc0 Hys).
       assert (Hnt0 : Forall (chr_ok (g_utf8 c)) nt0) by (apply Forall_app in Hnt as [H _]; exact H).
+      assert (Hyt : Forall (chr_ok (g_utf8 c)) (yc :: ys)) by (apply Forall_app in Hnt as [_ H]; exact H).
       rewrite dropz_app_exact by reflexivity. rewrite takez_app_exact by reflexivity. rewrite Hwz.
-      exists (if zlen nt0 =? 0 then front0 else front0 ++ [(ya, ycs, nt0)]), ya, ycs, yc, za, zcs, zc.
+      exists (if zlen nt0 =? 0 then front0 else front0 ++ [(ya, ycs, nt0)]), ya, ycs, (yc :: ys), za, zcs, (zc :: zs).
       rewrite row_width_app, row_width_single in Hwidth. cbn [snd] in Hwidth. rewrite calc_width_app in Hwidth.
-      cbn [calc_width] in Hwidth.
-      split; [reflexivity|]. split; [|split; [|split]].
-      * rewrite !row_cells_app, !row_cells_single. rewrite run_cells_split.
+      split; [reflexivity|]. splits.
+      * rewrite !row_cells_app, !row_cells_single.
+        rewrite (run_cells_split c ya ycs nt0 (yc :: ys)); [|eapply Forall_chr_ok_w12; eauto|eapply Forall_chr_ok_w12; eauto|exact Hyc0].
         destruct (zlen nt0 =? 0) eqn:En.
-        -- assert (nt0 = []) by (apply zlen_zero_nil; lia). subst nt0. cbn [run_cells flat_map app].
-           rewrite <- !app_assoc. reflexivity.
-        -- rewrite row_cells_app, row_cells_single. rewrite <- !app_assoc. reflexivity.
+        -- assert (nt0 = []) by (apply zlen_zero_nil; lia). subst nt0. rewrite run_cells_nil. cbn [app].
+           rewrite <- ?app_assoc. reflexivity.
+        -- rewrite row_cells_app, row_cells_single. rewrite <- ?app_assoc. reflexivity.
       * apply Forall_app. split.
         -- destruct (zlen nt0 =? 0).
            ++ eapply Forall_impl; [|exact Hfront0]. apply run_ok_weak.
            ++ apply Forall_app. split; [eapply Forall_impl; [|exact Hfront0]; apply run_ok_weak|].
-              constructor; [|constructor]. split; assumption.
-        -- constructor; [|constructor]. split; [constructor; [exact Hzc|constructor]|exact Hzcs].
-      * split; [constructor; [exact Hyc|constructor]|exact Hycs].
+              constructor; [|constructor]. unfold run_ok'. splits; assumption.
+        -- constructor; [exact Hzrun|constructor].
+      * unfold run_ok'. splits; auto.
+      * exists yc, ys. auto.
+      * exact Hbz.
       * destruct (zlen nt0 =? 0) eqn:En.
-        -- assert (nt0 = []) by (apply zlen_zero_nil; lia). subst nt0. cbn [calc_width] in Hwidth. lia.
+        -- assert (nt0 = []) by (apply zlen_zero_nil; lia). subst nt0. cbn [calc_width app] in *. lia.
         -- rewrite row_width_app, row_width_single. cbn [snd]. lia.
   - (* Y and Z are in the same run *)
     right. destruct (zlen lt0 <? 0) eqn:En; [lia|].
-    destruct (snoc_cases lt0) as [->|(lt1 & yc & ->)]; [rewrite zlen_nil in E0; lia|].
+    assert (Hlt0ne : lt0 <> []) by (intros ->; rewrite zlen_nil in E0; lia).
+    destruct (split_last_base lt0 Hlt0ne Hlt0b) as (lt1 & yc & ys & -> & Hyc0 & Hys & Hlt1b).
     rewrite dropz_app_exact by reflexivity. rewrite takez_app_exact by reflexivity.
-    rewrite (calc_text_pos_last _ lt1 yc Hlt0).
-    assert (Hyc : chr_ok (g_utf8 c) yc) by (apply Forall_app in Hlt0 as [_ H]; apply Forall_inv in H; exact H).
+    rewrite (calc_text_pos_last _ lt1 yc ys Hlt0 Hyc0 Hys).
     assert (Hlt1 : Forall (chr_ok (g_utf8 c)) lt1) by (apply Forall_app in Hlt0 as [H _]; exact H).
+    assert (Hyt : Forall (chr_ok (g_utf8 c)) (yc :: ys)) by (apply Forall_app in Hlt0 as [_ H]; exact H).
     rewrite dropz_app_exact by reflexivity. rewrite Hwz.
     rewrite <- app_assoc. rewrite takez_app_exact by reflexivity.
-    exists (if zlen lt1 =? 0 then front else front ++ [(za, zcs, lt1)]), za, zcs, yc, za, zcs, zc.
-    rewrite calc_width_app in Hwidth. cbn [calc_width] in Hwidth.
-    split; [reflexivity|]. split; [|split; [|split]].
-    * rewrite !row_cells_app, !row_cells_single. rewrite app_assoc. rewrite !run_cells_split.
+    exists (if zlen lt1 =? 0 then front else front ++ [(za, zcs, lt1)]), za, zcs, (yc :: ys), za, zcs, (zc :: zs).
+    rewrite calc_width_app in Hwidth.
+    split; [reflexivity|]. splits.
+    * rewrite !row_cells_app, !row_cells_single.
+      rewrite (run_cells_split c za zcs lt1 ((yc :: ys) ++ zc :: zs));
+        [|eapply Forall_chr_ok_w12; eauto|apply Forall_app; split; eapply Forall_chr_ok_w12; eauto|exact Hyc0].
+      rewrite (run_cells_split c za zcs (yc :: ys) (zc :: zs));
+        [|eapply Forall_chr_ok_w12; eauto|eapply Forall_chr_ok_w12; eauto|exact Hzc0].
       destruct (zlen lt1 =? 0) eqn:E1.
-      -- assert (lt1 = []) by (apply zlen_zero_nil; lia). subst lt1. cbn [run_cells flat_map app].
-         rewrite <- !app_assoc. reflexivity.
-      -- rewrite row_cells_app, row_cells_single. rewrite <- !app_assoc. reflexivity.
+      -- assert (lt1 = []) by (apply zlen_zero_nil; lia). subst lt1. rewrite run_cells_nil. cbn [app].
+         rewrite <- ?app_assoc. reflexivity.
+      -- rewrite row_cells_app, row_cells_single. rewrite <- ?app_assoc. reflexivity.
     * apply Forall_app. split.
       -- destruct (zlen lt1 =? 0).
          ++ eapply Forall_impl; [|exact Hfront]. apply run_ok_weak.
          ++ apply Forall_app. split; [eapply Forall_impl; [|exact Hfront]; apply run_ok_weak|].
-            constructor; [|constructor]. split; assumption.
-      -- constructor; [|constructor]. split; [constructor; [exact Hzc|constructor]|exact Hzcs].
-    * split; [constructor; [exact Hyc|constructor]|exact Hzcs].
+            constructor; [|constructor]. unfold run_ok'. splits; assumption.
+      -- constructor; [exact Hzrun|constructor].
+    * unfold run_ok'. splits; auto.
+    * exists yc, ys. auto.
+    * exact Hbz.
     * destruct (zlen lt1 =? 0) eqn:E1.
-      -- assert (lt1 = []) by (apply zlen_zero_nil; lia). subst lt1. cbn [calc_width] in Hwidth. lia.
+      -- assert (lt1 = []) by (apply zlen_zero_nil; lia). subst lt1. cbn [calc_width app] in *. lia.
       -- rewrite row_width_app, row_width_single. cbn [snd]. lia.
 Qed.
 
 (* ================= 6. one row ================= *)
 Lemma vis_eq_refl e : vis_eq e e.
-Proof. unfold vis_eq. destruct (c_cp e =? 32); splits; auto. Qed.
+Proof. unfold vis_eq. destruct ((c_cp e =? 32) && match c_comb e with [] => true | _ => false end); splits; auto. Qed.
 
 Lemma Forall2_vis_refl l : Forall2 vis_eq l l.
 Proof. induction l; constructor; auto using vis_eq_refl. Qed.
@@ -676,7 +814,7 @@ Qed.
 
 Lemma spaces_cells cs v sp : Forall (chr_ok true) sp \/ Forall (chr_ok false) sp ->
   Forall (fun ch : chr => fst ch = 32) sp ->
-  text_cells cs v sp = repeat (mkCell 32 1 cs v) (length sp) /\ calc_width sp = zlen sp.
+  text_cells cs v sp = repeat (mkCell 32 1 cs v []) (length sp) /\ calc_width sp = zlen sp.
 Proof.
   intros Hok Hsp. induction Hsp as [|ch sp H32 Hsp IH].
   - split; reflexivity.
@@ -684,8 +822,14 @@ Proof.
     { destruct Hok as [Hok|Hok]; apply Forall_inv in Hok; destruct Hok as (_ & _ & Hs); auto. }
     assert (Hok' : Forall (chr_ok true) sp \/ Forall (chr_ok false) sp).
     { destruct Hok as [Hok|Hok]; [left|right]; eapply Forall_inv_tail; eauto. }
+    assert (Hw12 : Forall w12 sp) by (destruct Hok' as [H|H]; eapply Forall_chr_ok_w12; eauto).
+    assert (Hsb : starts_with_base sp).
+    { destruct sp as [|c2 sp']; [exact I|]. cbn. apply Forall_inv in Hsp.
+      destruct Hok' as [H|H]; apply Forall_inv in H; destruct H as (_ & _ & Hs); rewrite (Hs Hsp); discriminate. }
     destruct (IH Hok') as [IH1 IH2]. split.
-    + cbn [text_cells flat_map length repeat]. fold (text_cells cs v sp). rewrite IH1, H32, Hw. reflexivity.
+    + change (ch :: sp) with ([ch] ++ sp).
+      rewrite text_cells_app; [|constructor; [right; left; exact Hw|constructor]|exact Hw12|exact Hsb].
+      rewrite IH1. unfold text_cells. cbn [paint_text fold_left]. unfold paint_chr. rewrite Hw, H32. reflexivity.
     + cbn [calc_width]. rewrite zlen_cons, IH2, Hw. reflexivity.
 Qed.
 
@@ -708,10 +852,17 @@ Proof.
   assert (Hspaces : Forall (fun ch : chr => fst ch = 32) sp).
   { unfold sp. apply Forall_app. split; [exact Hsp0|]. constructor; [|constructor]. unfold is_space in Hsp. lia. }
   rewrite Htext in *.
-  apply Forall_app in Hok as [Hfront Hl]. apply Forall_inv in Hl. destruct Hl as [Hchars Hcs].
+  apply Forall_app in Hok as [Hfront Hl]. apply Forall_inv in Hl. destruct Hl as (Hchars & Hbase & Hcs).
   apply Forall_app in Hchars as [Htx Hspok].
+  assert (Htxb : starts_with_base tx) by (destruct tx; [exact I|exact Hbase]).
+  assert (Hspb : starts_with_base sp).
+  { unfold sp. assert (Hch : snd ch <> 0).
+    { apply Forall_app in Hspok as [_ H]. apply Forall_inv in H. destruct H as (_ & _ & Hs).
+      unfold is_space in Hsp. rewrite Hs by lia. discriminate. }
+    destruct sp0 as [|c0 sp0']; [exact Hch|]. cbn. apply Forall_inv in Hsp0.
+    apply Forall_app in Hspok as [H _]. apply Forall_inv in H. destruct H as (_ & _ & Hs). rewrite (Hs Hsp0). discriminate. }
   assert (Hrow' : Forall (run_ok' c) (front ++ [(a, cs, tx)])).
-  { apply Forall_app. split; [exact Hfront|]. constructor; [|constructor]. split; assumption. }
+  { apply Forall_app. split; [exact Hfront|]. constructor; [|constructor]. unfold run_ok'. splits; assumption. }
   destruct (spaces_cells cs (attr_vis c a) sp) as [Hcells Hwsp]; auto.
   { destruct (g_utf8 c); auto. }
   assert (Hsplen : 1 <= zlen sp). { unfold sp. rewrite zlen_app, zlen_cons, zlen_nil. pose proof (zlen_nonneg sp0). lia. }
@@ -738,13 +889,14 @@ Proof.
     rewrite Hy3. apply HR'. }
   unfold RowDone. splits; auto.
   - unfold row_shows. rewrite Hrow.
-    rewrite row_cells_app, row_cells_single, run_cells_split.
+    rewrite row_cells_app, row_cells_single.
+    rewrite run_cells_split; [|eapply Forall_chr_ok_w12; eauto|eapply Forall_chr_ok_w12; eauto|exact Hspb].
     rewrite app_assoc. rewrite <- (row_cells_single c (a, cs, tx)), <- row_cells_app.
     apply Forall2_app; [apply Forall2_vis_refl|].
     change (run_cells c (a, cs, sp)) with (text_cells cs (attr_vis c a) sp). rewrite Hcells.
     replace (Z.to_nat (t_cols t2 - zlen (row_cells c (front ++ [(a, cs, tx)])))) with (length sp)
       by (rewrite HzP, Hcols2; unfold zlen; lia).
-    rewrite <- (repeat_length (mkCell 32 1 cs (attr_vis c a)) (length sp)) at 2.
+    rewrite <- (repeat_length (mkCell 32 1 cs (attr_vis c a) []) (length sp)) at 2.
     apply Forall2_repeat_r. apply Forall_forall. intros e He. apply repeat_spec in He. subst e.
     destruct HI' as (Hattr & _). fold rs2 in Hattr.
     assert (Hlast : r_last rs2 = a) by (unfold rs2; rewrite emit_runs_last; reflexivity).
@@ -752,7 +904,7 @@ Proof.
     assert (Hbce2 : t_bce t2 = true).
     { destruct HF' as (_ & _ & _ & _ & _ & _ & B & _). destruct HF as (_ & _ & _ & _ & _ & _ & B0 & _). congruence. }
     destruct (sul_false_flags c a Hsul) as (F1 & F2 & F3).
-    unfold vis_eq, erase_cell. cbn. rewrite Hbce2, Hattr, F1, F2, F3. splits; auto. change (32 =? 32) with true. cbv iota. splits; auto. intros; discriminate.
+    unfold vis_eq, erase_cell. cbn. rewrite Hbce2, Hattr, F1, F2, F3. splits; auto. change (32 =? 32) with true. cbn [andb]. cbv iota. splits; auto. intros; discriminate.
 Qed.
 
 Lemma WFc_row_cells c row : Forall (run_ok' c) row -> WFc (row_cells c row).
@@ -775,38 +927,46 @@ Proof.
 Qed.
 
 (* the bottom-right cell: Z is drawn in the place of Y, then Y is inserted in front of it *)
-Lemma row_trick_ok c rs nr0 ya ycs yc za zcs zc row t0 t y R0 :
-  cfg_ok c -> Forall (run_ok' c) (nr0 ++ [(za, zcs, [zc])]) -> run_ok' c (ya, ycs, [yc]) ->
-  row_cells c row = row_cells c nr0 ++ run_cells c (ya, ycs, [yc]) ++ run_cells c (za, zcs, [zc]) ->
-  row_width nr0 + snd yc + snd zc = t_cols t ->
+Lemma row_trick_ok c rs nr0 ya ycs yt za zcs zt row t0 t y R0 :
+  cfg_ok c -> Forall (run_ok' c) (nr0 ++ [(za, zcs, zt)]) -> run_ok' c (ya, ycs, yt) ->
+  base_text yt -> base_text zt ->
+  row_cells c row = row_cells c nr0 ++ run_cells c (ya, ycs, yt) ++ run_cells c (za, zcs, zt) ->
+  row_width nr0 + calc_width yt + calc_width zt = t_cols t ->
   Inv c rs t -> RowSt t y [] R0 -> SameFrame t0 t y -> 0 <= y < zlen (t_grid t0) ->
   RowDone c t0
-    (run t (fst (emit_runs c rs (nr0 ++ [(za, zcs, [zc])]))
-            ++ emit_ins c (snd (emit_runs c rs (nr0 ++ [(za, zcs, [zc])]))) (snd zc) (ya, ycs, [yc])))
-    y row (snd (emit_runs c rs (nr0 ++ [(za, zcs, [zc])]))) False.
+    (run t (fst (emit_runs c rs (nr0 ++ [(za, zcs, zt)]))
+            ++ emit_ins c (snd (emit_runs c rs (nr0 ++ [(za, zcs, zt)]))) (calc_width zt) (ya, ycs, yt)))
+    y row (snd (emit_runs c rs (nr0 ++ [(za, zcs, zt)]))) False.
 Proof.
-  intros Hc Hnr Hyr Hcells Hw HI HR HF Hy.
-  set (nr := nr0 ++ [(za, zcs, [zc])]) in *.
-  destruct Hyr as [Hyc Hycs]. apply Forall_inv in Hyc.
+  intros Hc Hnr Hyr Hby Hbz Hcells Hw HI HR HF Hy.
+  set (nr := nr0 ++ [(za, zcs, zt)]) in *.
+  destruct Hyr as (Hyt & _ & Hycs).
+  destruct (base_text_width yt Hby) as (yc & ys & Eyt & Hyc0 & Hys & Hwyt).
+  destruct (base_text_width zt Hbz) as (zc & zs & Ezt & Hzc0 & Hzs & Hwzt).
   assert (Hnr0 : Forall (run_ok' c) nr0) by (apply Forall_app in Hnr as [H _]; exact H).
-  assert (Hzr : run_ok' c (za, zcs, [zc])) by (apply Forall_app in Hnr as [_ H]; apply Forall_inv in H; exact H).
-  destruct Hzr as [Hzc Hzcs]. apply Forall_inv in Hzc.
-  assert (Hwy : snd yc = 1 \/ snd yc = 2) by (eapply chr_ok_w12; eauto).
-  assert (Hwz : snd zc = 1 \/ snd zc = 2) by (eapply chr_ok_w12; eauto).
+  assert (Hzr : run_ok' c (za, zcs, zt)) by (apply Forall_app in Hnr as [_ H]; apply Forall_inv in H; exact H).
+  destruct Hzr as (Hzt & _ & Hzcs).
+  assert (Hyc : chr_ok (g_utf8 c) yc) by (rewrite Eyt in Hyt; apply Forall_inv in Hyt; exact Hyt).
+  assert (Hzc : chr_ok (g_utf8 c) zc) by (rewrite Ezt in Hzt; apply Forall_inv in Hzt; exact Hzt).
+  assert (Hwy : snd yc = 1 \/ snd yc = 2) by (destruct (chr_ok_w12 _ _ Hyc) as [H|[H|H]]; [congruence|auto|auto]).
+  assert (Hwz : snd zc = 1 \/ snd zc = 2) by (destruct (chr_ok_w12 _ _ Hzc) as [H|[H|H]]; [congruence|auto|auto]).
+  assert (Hys12 : Forall w12 ys).
+  { rewrite Eyt in Hyt. apply Forall_inv_tail in Hyt. eapply Forall_chr_ok_w12; eauto. }
   pose proof (row_width_nonneg c nr0 Hnr0) as Hn0.
   assert (Hwnr : row_width nr = t_cols t - snd yc).
-  { unfold nr. rewrite row_width_app, row_width_single. cbn [snd calc_width]. lia. }
+  { unfold nr. rewrite row_width_app, row_width_single. cbn [snd]. lia. }
   destruct (emit_runs_ok c nr rs t0 t y [] R0 Hc Hnr HI HR HF Hy) as (R' & HR2 & HF2 & HI2 & _).
   { rewrite zlen_nil. lia. }
   cbn [app] in HR2. set (rs2 := snd (emit_runs c rs nr)) in *. set (t2 := run t (fst (emit_runs c rs nr))) in *.
   assert (Hcols2 : t_cols t2 = t_cols t) by (rewrite (SameFrame_cols _ _ _ HF2), (SameFrame_cols _ _ _ HF); reflexivity).
-  set (Zc := run_cells c (za, zcs, [zc])) in *. set (Yc := run_cells c (ya, ycs, [yc])) in *.
+  set (Zc := run_cells c (za, zcs, zt)) in *. set (Yc := run_cells c (ya, ycs, yt)) in *.
   assert (Hsplit : row_cells c nr = row_cells c nr0 ++ Zc).
   { unfold nr. rewrite row_cells_app, row_cells_single. reflexivity. }
   assert (HzZ : zlen Zc = snd zc).
-  { unfold Zc. cbn [run_cells flat_map]. rewrite app_nil_r. apply zlen_char_cells. lia. }
+  { unfold Zc. change (zlen (text_cells zcs (attr_vis c za) zt) = snd zc).
+    rewrite zlen_text_cells by (eapply Forall_chr_ok_w12; eauto). exact Hwzt. }
   assert (HwZ : WFc Zc).
-  { unfold Zc. cbn [run_cells flat_map]. rewrite app_nil_r. apply WFc_char_cells. lia. }
+  { unfold Zc. change (WFc (text_cells zcs (attr_vis c za) zt)). apply WFc_text_cells. eapply Forall_chr_ok_w12; eauto. }
   assert (Hz0 : zlen (row_cells c nr0) = row_width nr0) by (apply zlen_row_cells; exact Hnr0).
   assert (HzP : zlen (row_cells c nr) = t_cols t - snd yc) by (rewrite zlen_row_cells by exact Hnr; exact Hwnr).
   assert (Hlen2 : zlen (t_grid t2) = zlen (t_grid t0)) by (apply (SameFrame_len _ _ _ HF2)).
@@ -816,7 +976,7 @@ Proof.
   assert (HzR' : zlen R' = snd yc) by lia.
   destruct HI2 as (_ & Hirm2 & Hcs2).
   (* backspaces *)
-  unfold emit_ins. rewrite !run_app. fold t2.
+  unfold emit_ins. rewrite !run_app. fold t2. rewrite Hwzt.
   assert (Hbs : run t2 (repeat TBs (Z.to_nat (snd zc))) = set_pos t2 (zlen (row_cells c nr0)) y false).
   { rewrite bs_run by (rewrite Hx2, Hsplit, zlen_app, HzZ; pose proof (zlen_nonneg (row_cells c nr0)); lia).
     destruct (Z.to_nat (snd zc)) eqn:En; [lia|]. f_equal; [|exact Hy2].
@@ -843,11 +1003,13 @@ Proof.
       eexists. split; [reflexivity|]. rewrite Et in *.
       splits; auto using RowSt_set_so, RowSt_set_ibm, RowSt_set_attr, SameFrame_set_so, SameFrame_set_ibm, SameFrame_set_attr. }
   fold tc. destruct H5 as (t5 & -> & HR5 & HF5 & Hat5 & Hcs5 & Hirm5 & Hmode5).
-  (* insert Y *)
+  (* insert Y, then its combining characters *)
   set (tail := if negb (g_utf8 c) && (ycs =? 2) then [TIbmOff] else []).
   set (t6 := set_irm t5 true).
   set (t7 := put t6 (fst yc) (snd yc)).
-  replace (run (run (run (run t5 [TIrmOn]) (map ch_tok [yc])) [TIrmOff]) tail) with (run (set_irm t7 false) tail)
+  set (t8 := run t7 (map ch_tok ys)).
+  rewrite Eyt.
+  replace (run (run (run (run t5 [TIrmOn]) (map ch_tok (yc :: ys))) [TIrmOff]) tail) with (run (set_irm t8 false) tail)
     by reflexivity.
   assert (HR6 : RowSt t6 y (row_cells c nr0) (Zc ++ R')) by (apply RowSt_set_irm; exact HR5).
   assert (HF6 : SameFrame t0 t6 y) by (apply SameFrame_set_irm; exact HF5).
@@ -856,29 +1018,46 @@ Proof.
     as (HR7 & HF7 & HM7).
   fold t7 in HR7, HF7, HM7.
   destruct HM7 as (M1 & M2 & M3 & M4). cbn in M1, M2, M3, M4.
+  assert (Hcs7 : cur_cs t7 = ycs).
+  { unfold cur_cs in *. rewrite M3, M4, (SameFrame_g1 t0 t6 t7 y HF6 HF7). cbn. exact Hcs5. }
+  destruct (print_any ys t0 t7 y _ Zc HR7 HF7 Hy (or_intror Hys) Hys12) as (R8 & HR8 & HF8 & HM8 & HR8eq).
+  { rewrite (calc_width_zw ys Hys). destruct HR7 as (_ & _ & Hl & _). rewrite zlen_app in *.
+    pose proof (zlen_nonneg Zc). lia. }
+  fold t8 in HR8, HF8, HM8. rewrite (HR8eq Hys) in HR8. clear HR8eq R8.
+  destruct HM8 as (N1 & N2 & N3 & N4).
+  (* what is now in front of Z is exactly Y with its combining characters *)
+  assert (EY : paint_text (row_cells c nr0 ++ char_cells (fst yc) (snd yc) (cur_cs t6) (t_attr t6)) (cur_cs t7) (t_attr t7) ys
+               = row_cells c nr0 ++ Yc).
+  { rewrite Hcs7, M1. replace (cur_cs t6) with ycs by (unfold cur_cs in *; cbn; exact (eq_sym Hcs5)).
+    replace (t_attr t6) with (attr_vis c ya) by (cbn; congruence).
+    rewrite ?Hat5. rewrite paint_text_prefix.
+    - f_equal. unfold Yc. rewrite Eyt. cbn [run_cells]. rewrite paint_text_cons. unfold paint_chr.
+      destruct (snd yc =? 0) eqn:E0; [lia|]. cbn [app]. reflexivity.
+    - apply WFc_char_cells. lia.
+    - unfold char_cells. destruct (snd yc =? 0) eqn:E0; [lia|discriminate].
+    - exact Hys12. }
+  rewrite EY in HR8.
   (* insert mode off, IBMPC off again if Y was drawn in it *)
-  assert (H8 : exists t8, run (set_irm t7 false) tail = t8 /\ t_grid t8 = t_grid t7 /\ SameFrame t0 t8 y /\ t_y t8 = y
-                 /\ t_irm t8 = false /\ t_ibm t8 = false /\ (g_utf8 c = true -> t_so t8 = false)).
-  { assert (Y7 : t_y t7 = y) by apply HR7.
+  assert (H9 : exists t9, run (set_irm t8 false) tail = t9 /\ t_grid t9 = t_grid t8 /\ SameFrame t0 t9 y /\ t_y t9 = y
+                 /\ t_irm t9 = false /\ t_ibm t9 = false /\ (g_utf8 c = true -> t_so t9 = false)).
+  { assert (Y8 : t_y t8 = y) by apply HR8.
+    assert (I8 : t_ibm t8 = t_ibm t5) by (rewrite N4, M4; reflexivity).
+    assert (S8 : t_so t8 = t_so t5) by (rewrite N3, M3; reflexivity).
     unfold tail. destruct (g_utf8 c) eqn:U; cbn [negb andb].
-    - exists (set_irm t7 false). destruct Hmode5 as [S5 I5].
-      splits; try reflexivity; try exact Y7; try (unfold SameFrame in *; cbn; exact HF7); try (cbn; congruence);
+    - exists (set_irm t8 false). destruct Hmode5 as [S5 I5].
+      splits; try reflexivity; try exact Y8; try (unfold SameFrame in *; cbn; exact HF8); try (cbn; congruence);
         try (intros _; cbn; congruence).
     - destruct (ycs =? 2) eqn:E2.
-      + exists (set_ibm (set_irm t7 false) false).
-        splits; try reflexivity; try exact Y7; try (unfold SameFrame in *; cbn; exact HF7); try (intros; discriminate).
-      + exists (set_irm t7 false).
-        splits; try reflexivity; try exact Y7; try (unfold SameFrame in *; cbn; exact HF7); try (cbn; congruence);
+      + exists (set_ibm (set_irm t8 false) false).
+        splits; try reflexivity; try exact Y8; try (unfold SameFrame in *; cbn; exact HF8); try (intros; discriminate).
+      + exists (set_irm t8 false).
+        splits; try reflexivity; try exact Y8; try (unfold SameFrame in *; cbn; exact HF8); try (cbn; congruence);
           try (intros; discriminate). }
-  destruct H8 as (t8 & -> & Hg8 & HF8 & Hy8 & Hirm8 & Hibm8 & Hso8).
+  destruct H9 as (t9 & -> & Hg9 & HF9 & Hy9 & Hirm9 & Hibm9 & Hso9).
   unfold RowDone. splits; auto; try contradiction.
-  - unfold row_shows. rewrite Hg8.
-    destruct HR7 as (_ & Hrow7 & _). rewrite Hrow7.
-    assert (EY : char_cells (fst yc) (snd yc) (cur_cs t6) (t_attr t6) = Yc).
-    { unfold Yc. cbn [run_cells flat_map]. rewrite app_nil_r.
-      replace (cur_cs t6) with ycs by (unfold cur_cs in *; cbn; exact (eq_sym Hcs5)).
-      replace (t_attr t6) with (attr_vis c ya) by (cbn; congruence). reflexivity. }
-    rewrite EY, Hcells, <- app_assoc. apply Forall2_vis_refl.
+  - unfold row_shows. rewrite Hg9.
+    destruct HR8 as (_ & Hrow8 & _). rewrite Hrow8.
+    rewrite Hcells, <- app_assoc. apply Forall2_vis_refl.
   - unfold Modes. splits; auto. intros H. congruence.
 Qed.
 
@@ -1060,7 +1239,7 @@ Proof.
       * (* bottom row *)
         apply andb_prop in Elast as [Ey Ec].
         destruct (last_row_ok c cols _ Hrok Hrne) as
-          [(za & zcs & zc & Er1 & Elr) | (nr0 & ya & ycs & yc & za & zcs & zc & Elr & Hcells & Hnr & Hyr & Hwsum)].
+          [(r1 & Er1 & Elr) | (nr0 & ya & ycs & yt & za & zcs & zt & Elr & Hcells & Hnr & Hyr & Hby & Hbz & Hwsum)].
         -- rewrite Elr. cbn [bind].
            pose proof (row_plain_ok c (d_rs acc) _ t1 t1 y (get_row (t_grid t) y) True Hc Hrow' HI1 HR1
                          (SameFrame_refl _ _) Hy1 Hw1) as W.
@@ -1072,14 +1251,14 @@ Proof.
            rewrite run_app. fold t1. cbn [app]. rewrite app_nil_r.
            subst t_runs rs2. eapply loop_next with (t1 := t1) (keep := True); eauto.
         -- rewrite Elr. cbn [bind].
-           assert (Hwsum' : row_width nr0 + snd yc + snd zc = t_cols t1) by congruence.
-           pose proof (row_trick_ok c (d_rs acc) nr0 ya ycs yc za zcs zc _ t1 t1 y (get_row (t_grid t) y) Hc Hnr Hyr Hcells
+           assert (Hwsum' : row_width nr0 + calc_width yt + calc_width zt = t_cols t1) by congruence.
+           pose proof (row_trick_ok c (d_rs acc) nr0 ya ycs yt za zcs zt _ t1 t1 y (get_row (t_grid t) y) Hc Hnr Hyr Hby Hbz Hcells
                          Hwsum' HI1 HR1 (SameFrame_refl _ _) Hy1) as W.
            match goal with |- context [emit_runs ?ea ?eb ?ec] =>
              destruct (emit_runs ea eb ec) as [t_runs rs2] eqn:Er;
              assert (E1 : t_runs = fst (emit_runs ea eb ec)) by (rewrite Er; reflexivity);
              assert (E2 : rs2 = snd (emit_runs ea eb ec)) by (rewrite Er; reflexivity); clear Er end.
-           eexists. exists (t_pos ++ t_runs ++ emit_ins c rs2 (snd zc) (ya, ycs, [yc]) ++ []).
+           eexists. exists (t_pos ++ t_runs ++ emit_ins c rs2 (calc_width zt) (ya, ycs, yt) ++ []).
            split; [reflexivity|]. split; [reflexivity|].
            rewrite run_app. fold t1. rewrite app_nil_r.
            subst t_runs rs2. eapply loop_next with (t1 := t1) (keep := False); eauto.
